@@ -82,7 +82,10 @@ def run(tier):
              'transaction, stall until the timeout, 421 banner, all recipients refused, refused connection ...); time is '
              'advanced past every timeout at the end; directed family: a transaction refused at MAIL, RCPT, DATA or end-of-data '
              '(4xx/5xx) followed by two more messages on the same reused connection, SMTP/LMTP, PIPELINING on/off; each result is '
-             'compared with what the downstream answered to that request\'s own transaction; non-trivial = more than one connection opened or a connection reused',
+             'compared with what the downstream answered to that request\'s own transaction; the HTTP relay\'s pool: 2-4 attempts '
+             'against a loopback peer (responses with and without a body, chunked, error statuses, reset, garbage, silence), '
+             'pool size 1, 2 or unbounded, keep-alive on and off, connections counted where the relay creates and closes them; '
+             'non-trivial = more than one connection opened or a connection reused',
         trigger=lambda tr: sum(1 for e in tr['ev'] if e['t'] == 'conn' and e['what'] == 'open') > 1
         or any(e['t'] == 'peer' and e.get('trans', 0) >= 1 for e in tr['ev']),
         assumptions=['open connections are counted on the relay side (sockets handed out by socket_creator and not yet closed)',
